@@ -230,15 +230,27 @@ func nodifyStrucType(nodes []Node) Node {
 	return NewStructType(name, members)
 }
 
+// nodifyTupleOrStruct builds a struct when the members are followed by
+// a type definition ("<Name,field,...>") and a tuple otherwise. Both
+// start with the same "(...)": parsing it once keeps the parsing time
+// linear in the nesting depth.
+func nodifyTupleOrStruct(nodes []Node) Node {
+	if definition, ok := nodes[3].([]Node); ok && len(definition) == 1 {
+		if parts, ok := definition[0].([]Node); ok && len(parts) == 4 {
+			return nodifyStrucType(append(append([]Node{}, nodes[:3]...), parts...))
+		}
+	}
+	return nodifyTupleType(nodes[:3])
+}
+
 func init() {
 
 	var arrayType parsec.Parser
 	var mapType parsec.Parser
-	var structType parsec.Parser
-	var tupleType parsec.Parser
+	var tupleOrStructType parsec.Parser
 
 	var declarationType = parsec.OrdChoice(nil,
-		basicType(), &mapType, &arrayType, &structType, &tupleType)
+		basicType(), &mapType, &arrayType, &tupleOrStructType)
 
 	arrayType = parsec.And(nodifyArrayType,
 		parsec.Atom("[", "MapStart"),
@@ -254,19 +266,15 @@ func init() {
 			typeName(),
 		))
 
-	tupleType = parsec.And(nodifyTupleType,
-		parsec.Atom("(", "TypeParameterStart"),
-		&listType,
-		parsec.Atom(")", "TypeParameterClose"))
-
-	structType = parsec.And(nodifyStrucType,
+	tupleOrStructType = parsec.And(nodifyTupleOrStruct,
 		parsec.Atom("(", "TypeParameterStart"),
 		&listType,
 		parsec.Atom(")", "TypeParameterClose"),
-		parsec.Atom("<", "TypeDefinitionStart"),
-		structName(),
-		&typeMemberList,
-		parsec.Atom(">", "TypeDefinitionClose"))
+		parsec.Maybe(nil, parsec.And(nil,
+			parsec.Atom("<", "TypeDefinitionStart"),
+			structName(),
+			&typeMemberList,
+			parsec.Atom(">", "TypeDefinitionClose"))))
 
 	mapType = parsec.And(nodifyMap,
 		parsec.Atom("{", "MapStart"),
